@@ -58,7 +58,7 @@ RULE = ("random type-directed pipelines over catalogue methods supported by Pand
 SUITES = [
     # `pandas-raised`: the Pandas evaluation itself raised (run-time dtype problems of pandas 3): there is no Pandas
     # result the SQL result could be compared with, so the property says nothing about such a case
-    with_oracle(K5Sem, oracles.oracle_C01, every=1, ignore_kinds=("pandas-raised",)),
+    with_oracle(K5Sem, oracles.oracle_C01, every=1, ignore_kinds=("pandas-raised",), corpus_dir="C01"),
     K5Near(dialects=("sqlite",)),
     K4Sem(),
 ]
